@@ -11,7 +11,6 @@ package c14
 import (
 	"fmt"
 	"os"
-	"os/exec"
 	"path/filepath"
 	"sync"
 	"testing"
@@ -69,9 +68,12 @@ func killedBeforeFirstSnapshot(t testing.TB, data string, priv crypto.PrivKey, o
 	// the entry is committed and applied on this single peer)
 	img := data + ".image"
 	os.RemoveAll(img)
-	if out, err := exec.Command("cp", "-a", data, img).CombinedOutput(); err != nil {
+	// (copied in-process: a fork+exec here would briefly duplicate the file
+	// descriptors of the badger stores other sections hold, and with them
+	// their directory locks)
+	if err := copyTree(data, img); err != nil {
 		cc.Shutdown(bg)
-		return fmt.Errorf("cp: %v %s", err, out)
+		return fmt.Errorf("copying the data folder: %v", err)
 	}
 	cc.Shutdown(bg) // takes a snapshot: discarded with the live folder
 	removeRaftData(data)
